@@ -57,9 +57,31 @@ def float_weights(flat):
 
 # --------------------------------------------------------------------------- generation
 
-def gen_rates(R, n_cells, n_mags, binary_friendly):
+def inject_rows_for(R, test, rates2d, n_per_sim, nsim):
+    """random_numbers= rows that name n_per_sim distinct positive-rate bins per simulation (interval mid-points),
+    or None when some interval is too narrow to be hit unambiguously"""
+    icdf = models.InverseCDF(flat_rates(test, rates2d).tolist())
+    if n_per_sim > len(icdf.pos):
+        return None
+    rows = []
+    for _ in range(nsim):
+        row = []
+        for i in R.sample(range(len(icdf.pos)), n_per_sim):
+            lo = icdf.upper_f[i - 1] if i > 0 else 0.0
+            u = lo + (icdf.upper_f[i] - lo) * 0.5
+            cands, amb = icdf.place(u)
+            if amb or cands != [icdf.pos[i]] or not (0.0 <= u < 1.0):
+                return None
+            row.append(u)
+        rows.append(row)
+    return rows
+
+
+def gen_rates(R, n_cells, n_mags, binary_friendly, wide=False):
     """rates spanning many decades, with a per-run probability of exact zeros"""
     lo, hi = (-3, 0.5) if binary_friendly else R.choice(((-12, 3), (-6, 1), (-2, 2), (-1, 1)))
+    if wide:
+        lo, hi = -9, 1
     p_zero = R.choice((0.0, 0.0, 0.15, 0.4))
     zero_mode = R.choice(('scatter', 'leading', 'trailing', 'row'))
     rates = [[10 ** R.uniform(lo, hi) for _ in range(n_mags)] for _ in range(n_cells)]
@@ -153,7 +175,10 @@ def generate(R, tier, focus):
     region = gen.gen_quadtree(R) if quad else gen.gen_lattice(R, max_cells=12 if not thorough else 40)
     mags = gen.gen_mags(R, max_bins=5 if not thorough else 8)
     nc, nm = gen.n_cells(region), len(mags['edges'])
-    rates = gen_rates(R, nc, nm, binary_focus)
+    # C16's quantifier says rates 1e-9..10: such worlds make rejection loops legitimately endless, so their
+    # binary / Brier evaluations are driven through the library's own random_numbers= seam
+    wide = focus == 'C16' and R.random() < 0.4
+    rates = gen_rates(R, nc, nm, binary_focus, wide=wide)
     world = {'region': region, 'mags': mags, 'rates': rates, 'start_ms': gen.T0_MS,
              'end_ms': gen.T0_MS + gen.YEAR_MS}
     n_max = 30 if not thorough else R.choice((30, 100, 300))
@@ -227,8 +252,16 @@ def generate(R, tier, focus):
             npos_t = int((flat_rates(test, rates) > 0).sum())
             if n_active > npos_t:
                 continue        # no valid simulated catalog exists: property vacuous
-            if liveness_budget(test, rates, n_active, nsim) >= 100000:
-                continue        # legitimately long coupon-collector loop: keep runs short
+            if wide or liveness_budget(test, rates, n_active, nsim) >= 100000:
+                # legitimately long coupon-collector loop: drive the simulation through random_numbers=
+                rows = inject_rows_for(R, test, rates, n_active, nsim)
+                if rows is None:
+                    continue
+                op['mode'] = 'inject'
+                op['random_numbers'] = rows
+                op['ncol'] = n_active
+                ops.append(op)
+                continue
             n_per_sim = n_active
         else:
             n_per_sim = n_obs
@@ -491,6 +524,7 @@ def _execute(scn, ctx, rng, collect_results):
     for oi, op in enumerate(scn['ops']):
         if op['op'] == 'NOISE':
             ctx.count('fire:noise_' + op['kind'])
+            rng.mark(budget=HARD_CAP)
             if op['kind'] == 'draw':
                 numpy.random.rand(op['n'])
             else:
@@ -652,7 +686,10 @@ def _execute(scn, ctx, rng, collect_results):
             base_events = scn['obs'][scn['obs'][op['obs']]['dup_of']]['events']
             base_cat = build.make_catalog(base_events, region=fc.region, name='obs')
             rng.mark(budget=HARD_CAP)
-            rb = call(run_gridded_test, test, fc, base_cat, 1, 12345, None)
+            if inject is not None:
+                rb = call(run_gridded_test, test, fc, base_cat, op['nsim'], 12345, inject, op.get('ncol'))
+            else:
+                rb = call(run_gridded_test, test, fc, base_cat, 1, 12345, None)
             if rb[0] == 'ok':
                 vb = result_view(rb[1])
                 ctx.count('activity_only_pairs')
